@@ -3,24 +3,14 @@ package main
 import (
 	"encoding/json"
 	"fmt"
-	"math"
 
 	"github.com/bytedance/sonic"
+	"github.com/bytedance/sonic/encoder"
 )
 
 func main() {
-	for _, in := range []string{"-0", "-0.0", "-0e0", "[-0]", "-0.00000", "-0E+5"} {
-		var f float64
-		var g float64
-		e1 := sonic.ConfigStd.UnmarshalFromString(in, &f)
-		e2 := json.Unmarshal([]byte(in), &g)
-		var f32 float32
-		sonic.ConfigStd.UnmarshalFromString(in, &f32)
-		var i interface{}
-		sonic.ConfigStd.UnmarshalFromString(in, &i)
-		fmt.Printf("%-10s sonic %v signbit=%v err=%v | std %v signbit=%v err=%v | f32 signbit=%v | iface %v\n", in, f, math.Signbit(f), e1, g, math.Signbit(g), e2, math.Signbit(float64(f32)), i)
+	for _, in := range []string{`"\x"`, `"\u12"`, `"\uZZZZ"`, "\"a\x01b\"", `"\ "`, `"\`, `"\u123"`, `"é"`, `"\ud800"`, `["\x"]`, `{"\x":1}`, `"\a"`, `"\0"`, "\"\\\n\"", `"\U0041"`, `"ok\/"`} {
+		ok, pos := encoder.Valid([]byte(in))
+		fmt.Printf("%-12q encoder.Valid=%v(%d) sonic.Valid=%v json.Valid=%v\n", in, ok, pos, sonic.Valid([]byte(in)), json.Valid([]byte(in)))
 	}
-	var s []float64
-	sonic.ConfigDefault.UnmarshalFromString("[-0, -0.0]", &s)
-	fmt.Println(math.Signbit(s[0]), math.Signbit(s[1]))
 }
